@@ -1391,3 +1391,115 @@ def rule_no_hidden_state(rep, pdb, fn, key, allow=()):
                         bad.append("%s calls %s" % (p, cp))
     rule = "the entry point and its local callees read no statics, thread-locals, clocks, RNG, files, environment or thread state"
     rep.add(key, rule, not bad, fn["body"], "reachable fns=%d %s" % (len(seen), bad[:4]), where="%s:%d" % (fn["file"], fn["span"][0]))
+
+
+# ---------------------------------------------------------------- arg-max / magnitude analysis (pivot searches, inf-norms)
+
+ORDERED = ("<", ">", "<=", ">=")
+
+
+def is_abs_term(t):
+    """Signed::abs / f64::abs / Complex::abs of something."""
+    return t[0] == "call" and (str(t[1]).endswith("::abs") or str(t[1]) in ("traits::Signed::abs",)) and len(t) == 3
+
+
+def is_zero_term(t):
+    return t == num(0) or (t[0] == "call" and str(t[1]).endswith("Zero::zero") or (t[0] == "call" and str(t[1]).endswith("Zero>::zero")))
+
+
+class ArgMax:
+    __slots__ = ("loop", "ifnode", "cmp", "best", "cur", "idx_var", "idx_val", "orient_ok", "best_gets_cur", "magnitude_ok",
+                 "detail", "var", "lo", "hi")
+
+
+def find_argmax(pdb, ctx, loop):
+    """Recognise `for v in lo..hi { if cur ⊳ best { best = cur; [idx = v] } }` in the body of `loop`.
+    Returns ArgMax or None."""
+    r = for_range(ctx, loop)
+    if r is None:
+        return None
+    body = loop["body"]
+    ifs = [s for s in body.get("stmts", []) if strip(s.get("e") or {}).get("k") == "If"]
+    tail = body.get("expr")
+    cands = [strip(s["e"]) for s in ifs]
+    if tail is not None and strip(tail).get("k") == "If":
+        cands.append(strip(tail))
+    for ifn in cands:
+        c = strip(ifn["cond"])
+        if c.get("k") != "Binary" or c["op"] not in ORDERED:
+            continue
+        # the variable(s) assigned in the branch
+        assigns = [e for e in effects(pdb, ctx, ifn["then"]) if e.kind == "assign" and e.target[0] == "var"]
+        if not assigns:
+            continue
+        L, R = ctx.term(c["l"]), ctx.term(c["r"])
+        op = c["op"]
+        small, big = (L, R) if op in ("<", "<=") else (R, L)
+        am = ArgMax()
+        am.loop, am.ifnode, am.cmp = loop, ifn, c
+        am.var, am.lo, am.hi = r[0], r[1], r[2] if not r[3] else lin_add(r[2], num(1))
+        best = None
+        for e in assigns:
+            if e.target == small or e.target == big:
+                best = e
+        if best is None:
+            continue
+        am.best = best.target
+        am.cur = big if best.target == small else small
+        am.orient_ok = best.target == small
+        # the value assigned to best, compared through definitions of opaque locals
+        bv = best.value
+        am.best_gets_cur = _same_value(ctx, bv, am.cur)
+        am.idx_var, am.idx_val = None, None
+        for e in assigns:
+            if e is not best:
+                am.idx_var, am.idx_val = e.target, e.value
+        cur_def = _resolve(ctx, am.cur)
+        inits = _reaching_values(ctx, am.best, exclude=best.node)
+        am.magnitude_ok = is_abs_term(cur_def) and all(is_abs_term(_resolve(ctx, t)) or is_zero_term(_resolve(ctx, t)) for t in inits) and bool(inits)
+        am.detail = "compare %s %s %s; best=%s gets %s; index=%s gets %s; candidates |.|: %s; initial value(s) of best: %s" % (
+            show(L, ctx), op, show(R, ctx), show(am.best, ctx), show(bv, ctx),
+            show(am.idx_var, ctx) if am.idx_var else None, show(am.idx_val, ctx) if am.idx_val else None,
+            is_abs_term(cur_def), [show(_resolve(ctx, t), ctx) for t in inits])
+        return am
+    return None
+
+
+def _resolve(ctx, t):
+    d = ctx.def_term(t) if t and t[0] == "var" else None
+    return d if d is not None else t
+
+
+def _same_value(ctx, a, b):
+    return a == b or _resolve(ctx, a) == _resolve(ctx, b)
+
+
+def _reaching_values(ctx, var, exclude=None):
+    """Terms of all values a local may hold other than through the assignment node `exclude`."""
+    out = []
+    if var[0] != "var":
+        return out
+    b = ctx.binds.get(var[1])
+    if b is not None and b.init is not None:
+        out.append(ctx.term(b.init))
+    for a in ctx.assigns.get(var[1], []):
+        if a is exclude:
+            continue
+        if a.get("k") == "Assign" and strip(a["l"]).get("k") == "Local":
+            out.append(ctx.term(a["r"]))
+        else:
+            out.append(("opaque", a.get("id")))
+    return out
+
+
+def ordered_cmps_on_elements(pdb, fn):
+    """Ordered comparisons whose operands are of the generic element type (overloaded PartialOrd on T) or complex."""
+    out = []
+    for n in walk(fn["body"]):
+        if in_macro(n):
+            continue
+        if n.get("k") == "Binary" and n.get("op") in ORDERED:
+            lt = base_ty(ty_of(n["l"]))
+            if n.get("fn") and (lt == "T" or lt.startswith("complex::Complex")):
+                out.append(n)
+    return out
